@@ -185,3 +185,84 @@ Theorem c12_fresh_instance_unaffected :
     Model.run_ops (Model.mkInstance F T strict 0) (ops_on (length sys) ops).
 Proof. exact fresh_instance_proof. Qed.
 Print Assumptions c12_fresh_instance_unaffected.
+
+(* HAND-WRITTEN CODONS.  An mRNA may be built with codons=[...] of the caller's own: the list then
+   REPLACES the auto-detected one, so the up-front required-variable check of translate() walks whatever
+   was declared - fewer names than the sequence uses, names it never uses, repeated names, optional ones,
+   other codon types ([required_of cs s]; cs = [] is the auto-detected list, i.e. render_impl).  Whatever
+   the codons declare, they decide ONLY which "Missing required variable" reports the up-front check makes
+   (an error in strict mode), and only about names that are declared required, unbound and written outside
+   {{#each}} bodies: text, errors and warnings of the passes are [render_passes], which does not take the
+   codons.  Any sequence (well-formed or not), any registered templates, any context, both modes. *)
+Theorem c12_codons_only_add_reports :
+  forall (F : FTable) strict T c s cs,
+    (exists x, render_impl_decl strict T c s cs = Err (EMissing x) /\ strict = true /\
+               In x (required_of cs s) /\ lookup c x = None /\
+               occurs (key_pattern x) (outside_loops s) = true) \/
+    (exists m, render_impl_decl strict T c s cs = add_missing m (render_passes strict T c s) /\
+               (strict = true -> m = []) /\
+               forall x, In x m -> In x (required_of cs s) /\ lookup c x = None /\
+                                   occurs (key_pattern x) (outside_loops s) = true).
+Proof. exact @codons_report_only_proof. Qed.
+Print Assumptions c12_codons_only_add_reports.
+
+(* ... so the rendering is the single left-to-right expansion WHATEVER the codons declare (c12_render_eq is
+   the case cs = []) *)
+Theorem c12_render_eq_any_codons :
+  forall (F : FTable), ftable_ok F = true ->
+  forall T c t txt miss cs,
+    ctx_ok c = true ->
+    forallb (fun nt => well_formed (snd nt)) T = true -> well_formed t = true ->
+    render_spec false T c t = SOk txt miss ->
+    exists w, render_impl_decl false (print_templates T) c (print t) cs = Ok txt w.
+Proof. exact @render_eq_any_codons_proof. Qed.
+Print Assumptions c12_render_eq_any_codons.
+
+(* ... in strict mode as well, as soon as the up-front check passes: every name the codons declare required
+   and that is written outside {{#each}} bodies is bound.  Nothing is asked of the plain variables of the
+   template itself: those that are rendered are bound because the strict expansion is defined; one in an
+   if-branch that is not taken is over-reported only by codons that declare it (the auto-detected ones do). *)
+Theorem c12_strict_any_codons :
+  forall (F : FTable), ftable_ok F = true ->
+  forall T c t txt miss cs,
+    ctx_ok c = true ->
+    forallb (fun nt => well_formed (snd nt)) T = true -> well_formed t = true ->
+    Forall (fun nt => out_bound c (snd nt)) T ->
+    (forall x, In x (required_of cs (print t)) -> occurs (key_pattern x) (outside_loops (print t)) = true ->
+               lookup c x <> None) ->
+    render_spec true T c t = SOk txt miss ->
+    exists w, render_impl_decl true (print_templates T) c (print t) cs = Ok txt w.
+Proof. exact @strict_any_codons_proof. Qed.
+Print Assumptions c12_strict_any_codons.
+
+(* MISSING VARIABLES ARE REPORTED, whatever the codons declare and wherever the variable stands: a plain
+   variable that is still there after the blocks are expanded ([blocks c t]: the chosen if-branches and ONE
+   COPY OF EACH LOOP BODY PER ITEM with that item's own loop variables and dict keys replaced - so a key
+   that only SOME items of the list carry leaves {{key}} behind for the others) and that the context does
+   not bind is an error in strict mode and an "Unbound variable" warning otherwise.  With cs = [] this is
+   translate() of an ordinary mRNA; c12_strict_unbound_is_error is its strict half for cs = []. *)
+Theorem c12_rendered_unbound_var_reported :
+  forall (F : FTable), ftable_ok F = true ->
+  forall Ts c t x cs,
+    ctx_ok c = true -> well_formed t = true ->
+    In (LVar x) (blocks c t) -> lookup c x = None ->
+    (forall txt w, render_impl_decl false Ts c (print t) cs = Ok txt w -> In (WUnbound x) w) /\
+    (exists e, render_impl_decl true Ts c (print t) cs = Err e).
+Proof. exact @rendered_unbound_reported_proof. Qed.
+Print Assumptions c12_rendered_unbound_var_reported.
+
+(* ... and opacity holds whatever the codons declare (c12_opacity is the case cs = []) *)
+Theorem c12_opacity_any_codons :
+  forall (F : FTable), ftable_ok F = true ->
+  forall strict T c t cs,
+    ctx_ok c = true ->
+    forallb (fun nt => well_formed (snd nt)) T = true -> well_formed t = true ->
+    snd (Model.render_taint_decl strict (print_templates T) c (print t) cs) = [].
+Proof. exact @opacity_any_codons_proof. Qed.
+Print Assumptions c12_opacity_any_codons.
+
+(* no codons given = the auto-detected ones: render_impl is the case cs = [] of render_impl_decl *)
+Theorem c12_auto_codons :
+  forall (F : FTable) strict T c s, render_impl strict T c s = render_impl_decl strict T c s [].
+Proof. exact @render_impl_auto. Qed.
+Print Assumptions c12_auto_codons.
